@@ -230,8 +230,11 @@ class Gamma:
             if nid != NONE:
                 parts.append("<mosSchema>%s</mosSchema>" % escape(nid))
             if tok.startswith("tmb:"):          # timing fields that are blank or not numbers
-                pay = (["<TextTime/>", "<MediaTime>12</MediaTime>"] if r.random() < 0.5 else
-                       ["<StoryDuration>n/a</StoryDuration>"]) + [self.marker(tok)]
+                pay = r.choice([["<TextTime/>", "<MediaTime>12</MediaTime>"], ["<StoryDuration>n/a</StoryDuration>"],
+                                ["<StoryDuration>30</StoryDuration>", "<StoryEnded/>"],           # instants that are blank
+                                ["<StoryStarted>tbc</StoryStarted>", "<TextTime>9</TextTime>"],   # ... or not instants
+                                ["<StoryDuration>n/a</StoryDuration>", "<StoryStarted/>", "<StoryEnded></StoryEnded>"]]) \
+                    + [self.marker(tok)]
             elif tok.startswith("tm:"):
                 dur = 1 + (int(hashlib.sha1(tok.encode()).hexdigest()[:4], 16) % 40)
                 pay = ["<StoryDuration>%d</StoryDuration>" % dur] if r.random() < 0.5 else \
